@@ -141,7 +141,8 @@ def shard_a(sh):
         cases, exps = [], []
         for t in ch:
             for flags in (0, CFGF['COMMENTS'] | CFGF['NOCASE']):
-                a, g = pair(sid, flags, t)
+                # the deep workloads run with a search path set: every instance borrows the context's list, none of them owns it
+                a, g = pair(sid, flags, t, pre=(('addpath A ' + enc(b'/nonexistent/a'), 'addpath A ' + enc(b'/nonexistent/b')) if N == 0 else ()))
                 cases += [a, g]
                 exp0 = None
                 if N == 0:
